@@ -53,6 +53,21 @@ Fixpoint join_comma (xs : list text) : text :=
   | x :: r => x ++ [44; 32] ++ join_comma r
   end.
 
+(* isDigits (tree.go): non-empty and every rune in '0'..'9' *)
+Definition is_digits (l : text) : bool :=
+  match l with
+  | [] => false
+  | _ => forallb (fun c => (48 <=? c) && (c <=? 57)) l
+  end.
+
+(* the separator DotLookup.String writes before the lookup: " ." when a numeric lookup directly follows another
+   numeric lookup (foo.1 .2 — printed without the space the two would be read back as one decimal), else "." *)
+Definition dot_sep (c : expr) (l : text) : text :=
+  match c with
+  | EDot _ l' => if is_digits l' && is_digits l then [32; 46] else [46]
+  | _ => [46]
+  end.
+
 Section Printer.
 Variable lower : N -> N.
 Variable printable : N -> bool.
@@ -60,7 +75,7 @@ Variable printable : N -> bool.
 Fixpoint print (e : expr) : text :=
   match e with
   | ECtxRef n => map lower n                                         (* strings.ToLower(x.Name) *)
-  | EDot c l => print c ++ [46] ++ l                                 (* "%s.%s" *)
+  | EDot c l => print c ++ dot_sep c l ++ l                          (* "%s.%s", or "%s .%s" between numeric lookups *)
   | EIndex c l => print c ++ [91] ++ print l ++ [93]                 (* "%s[%s]" *)
   | ECall f ps => print f ++ [40] ++ join_comma (map print ps) ++ [41]   (* "%s(%s)", params joined by ", " *)
   | EAnon args b => [40] ++ join_comma args ++ [41; 32; 61; 62; 32] ++ print b   (* "(%s) => %s" *)
